@@ -3,8 +3,8 @@ import Okane.Lemmas.DocAcceptPosting
 # Acceptance of the documented grammar — transactions
 
 * `headerTail_accept` — the part of `transaction::transaction` between the date(s) and the metadata block (clear mark,
-  code, payee) accepts EVERY line text without CR / LF, provided it does not begin (after at most one clear mark) with a
-  `(` that is not closed on the line (`noteHazard`), and stops at the first `;` after the code or at the line end;
+  code, payee) accepts EVERY line text without CR / LF (a `(` that is not closed on the line is no code: `paren_str`
+  fails at the line end and the text is the payee), and stops at the first `;` after the code or at the line end;
 * `transaction_accept` — `transaction::transaction` accepts a documented `transaction` that is followed by the end of the
   text, a blank line, or a line that begins in column one.
 -/
@@ -30,11 +30,6 @@ def afterMark (L : List Char) : List Char :=
   match L with
   | c :: r => if c == '*' || c == '!' then stripSp r else L
   | [] => []
-
-theorem noteHazard_eq (n : List Char) :
-    noteHazard n = (match afterMark (stripSp n) with
-      | '(' :: r => !r.contains ')'
-      | _ => false) := rfl
 
 theorem dropWhile_head_false {q : Char → Bool} : ∀ {l : List Char} {c : Char} {t : List Char},
     l.dropWhile q = c :: t → q c = false
@@ -109,23 +104,57 @@ theorem split_at_close {r : List Char} (h : r.contains ')' = true) :
       · simpa using hc
       · exact ha d hd
 
-/-- the optional code: `(…)` up to the first `)` of the line -/
-theorem code_line {L1 T : List Char} (hL : NoNL L1) (hT : LineEnd T)
-    (hz : ∀ r, L1 = '(' :: r → r.contains ')' = true) :
+/-- the optional code: `(…)` up to the first `)` of the line; a `(` without `)` on its line is no code -/
+theorem code_line {L1 T : List Char} (hL : NoNL L1) (hT : LineEnd T) :
     ∃ code L2, opt (terminated Parse.parenStr space0) (L1 ++ T) = .ok code (L2 ++ T) ∧ NoNL L2 := by
   by_cases hp : ∃ r, L1 = '(' :: r
   · obtain ⟨r, rfl⟩ := hp
-    obtain ⟨a, b, rfl, ha⟩ := split_at_close (hz r rfl)
-    have hb : NoNL b := fun d hd => hL d (by simp [hd])
-    have htt : takeTill0 (· == ')') (a ++ (')' :: (b ++ T))) = .ok a (')' :: (b ++ T)) :=
-      takeTill0_append ha (by intro c r e; injection e with e _; subst e; rfl)
-    obtain ⟨hsp, hb', _⟩ := takeWhile0_line (q := Comb.isSpace) (by
-      intro c hc
-      simp only [isEol, Bool.or_eq_true, beq_iff_eq] at hc
-      rcases hc with rfl | rfl <;> decide) hb hT
-    refine ⟨some a, b.dropWhile Comb.isSpace, opt_ok ?_, hb'⟩
-    simp only [terminated_apply, Parse.parenStr, Parse.paren, delimited_apply, List.cons_append, List.append_assoc,
-      char_cons_self, Res.andThen_ok, htt, Res.map_ok, space0, hsp]
+    have hr : NoNL r := fun d hd => hL d (by simp [hd])
+    have hstop : ∀ {a : List Char}, NoNL a → (∀ c ∈ a, (c == ')') = false) → ∀ c ∈ a, Parse.isParenStrStop c = false := by
+      intro a ha h c hc
+      have h1 := ha.eol c hc
+      simp only [isEol, Bool.or_eq_false_iff] at h1
+      simp [Parse.isParenStrStop, h c hc, h1.1, h1.2]
+    by_cases hcl : r.contains ')' = true
+    · obtain ⟨a, b, rfl, ha⟩ := split_at_close hcl
+      have hb : NoNL b := fun d hd => hr d (by simp [hd])
+      have hann : NoNL a := fun d hd => hr d (by simp [hd])
+      have htt : takeTill0 Parse.isParenStrStop (a ++ (')' :: (b ++ T))) = .ok a (')' :: (b ++ T)) :=
+        takeTill0_append (hstop hann ha) (by intro c r e; injection e with e _; subst e; rfl)
+      obtain ⟨hsp, hb', _⟩ := takeWhile0_line (q := Comb.isSpace) (by
+        intro c hc
+        simp only [isEol, Bool.or_eq_true, beq_iff_eq] at hc
+        rcases hc with rfl | rfl <;> decide) hb hT
+      refine ⟨some a, b.dropWhile Comb.isSpace, opt_ok ?_, hb'⟩
+      simp only [terminated_apply, Parse.parenStr, Parse.paren, delimited_apply, List.cons_append, List.append_assoc,
+        char_cons_self, Res.andThen_ok, htt, Res.map_ok, space0, hsp]
+    · -- no `)` on the line: the text up to the line end is taken, the closing `)` is missing, `opt` backtracks
+      have hno : ∀ c ∈ r, (c == ')') = false := by
+        intro c hc
+        cases h : c == ')' with
+        | false => rfl
+        | true =>
+          exfalso
+          apply hcl
+          have : c = ')' := by simpa using h
+          subst this
+          exact List.contains_iff_mem.mpr hc
+      have htt : takeTill0 Parse.isParenStrStop (r ++ T) = .ok r T :=
+        takeTill0_append (hstop hr hno) (by
+          intro c t e
+          rcases hT with rfl | ⟨c', t', rfl, hc'⟩
+          · cases e
+          · injection e with e _
+            subst e
+            simp only [isEol, Bool.or_eq_true, beq_iff_eq] at hc'
+            rcases hc' with rfl | rfl <;> rfl)
+      have hclose : char ')' T = .bt T := by
+        rcases hT with rfl | ⟨c, t, rfl, hc⟩
+        · rfl
+        · exact char_cons_ne (by intro e; subst e; revert hc; decide) t
+      refine ⟨none, '(' :: r, opt_bt (q := T) ?_, hL⟩
+      simp only [terminated_apply, Parse.parenStr, Parse.paren, delimited_apply, List.cons_append,
+        char_cons_self, Res.andThen_ok, htt, hclose, Res.andThen_bt, Res.map_bt]
   · refine ⟨none, L1, opt_bt (q := L1 ++ T) ?_, hL⟩
     have : char '(' (L1 ++ T) = .bt (L1 ++ T) := by
       cases L1 with
@@ -191,108 +220,20 @@ theorem payee_line {L2 T : List Char} (hL : NoNL L2) (hT : LineEnd T) :
     rw [hz]
     rfl
 
-/-- **the header line after the date**: clear mark, code and payee accept every line text that is not of the
-hazardous form, and stop at the first `;` after the code, or at the end of the line -/
-theorem headerTail_accept {L T : List Char} (hL : NoNL L) (hT : LineEnd T) (hst : Stop Comb.isSpace (L ++ T))
-    (hz : noteHazard L = false) :
+/-- **the header line after the date**: clear mark, code and payee accept every line text, and stop at the first `;`
+after the code, or at the end of the line -/
+theorem headerTail_accept {L T : List Char} (hL : NoNL L) (hT : LineEnd T) :
     ∃ cs code payee M, NoNL M ∧ (M = [] ∨ ∃ t, M = ';' :: t) ∧
       ∀ {β : Type} (k : ClearState → Option (List Char) → Option (List Char) → Parser β),
         (Parse.clearState >>- fun cs => opt (terminated Parse.parenStr space0) >>- fun code =>
           opt (map Parse.trimEnd Parse.tillLineEndingOrSemi) >>- fun payee => k cs code payee) (L ++ T) =
         k cs code payee (M ++ T) := by
   obtain ⟨cs, L1, h1, hL1, hdef⟩ := clearState_line hL hT
-  have hstrip : stripSp L = L := by
-    cases L with
-    | nil => rfl
-    | cons c t =>
-      have : Comb.isSpace c = false := by simpa using hst
-      simp [stripSp, List.dropWhile, isSp_eq_isSpace, this]
-  have hz1 : ∀ r, L1 = '(' :: r → r.contains ')' = true := by
-    intro r e
-    rw [noteHazard_eq, hstrip, ← hdef, e] at hz
-    simpa using hz
-  obtain ⟨code, L2, h2, hL2⟩ := code_line hL1 hT hz1
+  obtain ⟨code, L2, h2, hL2⟩ := code_line hL1 hT
   obtain ⟨payee, M, h3, hM, hMhead⟩ := payee_line hL2 hT
   refine ⟨cs, code, payee, M, hM, hMhead, ?_⟩
   intro β k
   simp only [bind_apply, h1, Res.andThen_ok, h2, h3]
-
-/-! ## the hazard predicate and the rest of the header line -/
-
-theorem stripSp_append_nil {x y : List Char} (h : stripSp x = []) : stripSp (x ++ y) = stripSp y := by
-  induction x with
-  | nil => rfl
-  | cons c t ih =>
-    cases hc : isSp c with
-    | false => simp [stripSp, List.dropWhile, hc] at h
-    | true =>
-      simp only [stripSp, List.dropWhile, hc] at h
-      simpa [stripSp, List.dropWhile, hc] using ih h
-
-theorem stripSp_append_cons {x y r : List Char} {d : Char} (h : stripSp x = d :: r) : stripSp (x ++ y) = d :: (r ++ y) := by
-  induction x with
-  | nil => simp [stripSp] at h
-  | cons c t ih =>
-    cases hc : isSp c with
-    | false =>
-      simp only [stripSp, List.dropWhile, hc] at h
-      injection h with e1 e2
-      subst e1; subst e2
-      simp [stripSp, List.dropWhile, hc]
-    | true =>
-      simp only [stripSp, List.dropWhile, hc] at h
-      simpa [stripSp, List.dropWhile, hc] using ih h
-
-theorem stripSp_of_head {c : Char} {t : List Char} (h : isSp c = false) : stripSp (c :: t) = c :: t := by
-  simp [stripSp, List.dropWhile, h]
-
-/-- the text of an inline metadata (or nothing) after the note does not make a safe note hazardous -/
-theorem noteHazard_append {n L0 : List Char} (hz : noteHazard n = false) (hL0 : L0 = [] ∨ ∃ t, L0 = ';' :: t) :
-    noteHazard (n ++ L0) = false := by
-  have hL0strip : stripSp L0 = L0 := by
-    rcases hL0 with rfl | ⟨t, rfl⟩
-    · rfl
-    · exact stripSp_of_head (by decide)
-  have hL0safe : (match afterMark L0 with
-      | '(' :: r => !r.contains ')'
-      | _ => false) = false := by
-    rcases hL0 with rfl | ⟨t, rfl⟩
-    · rfl
-    · simp [afterMark]
-  rw [noteHazard_eq] at hz ⊢
-  cases hs : stripSp n with
-  | nil =>
-    rw [stripSp_append_nil hs, hL0strip]
-    exact hL0safe
-  | cons c r =>
-    rw [hs] at hz
-    rw [stripSp_append_cons hs]
-    by_cases hm : (c == '*' || c == '!') = true
-    · simp only [afterMark, hm, if_true] at hz ⊢
-      cases hr : stripSp r with
-      | nil =>
-        rw [stripSp_append_nil hr, hL0strip]
-        rcases hL0 with rfl | ⟨t, rfl⟩ <;> rfl
-      | cons d r' =>
-        rw [hr] at hz
-        rw [stripSp_append_cons hr]
-        by_cases hd : d = '('
-        · subst hd
-          simp only [Bool.not_eq_false'] at hz ⊢
-          have : ')' ∈ r' := List.contains_iff_mem.mp hz
-          simp [this]
-        · split
-          · rename_i heq; injection heq with e _; exact absurd e hd
-          · rfl
-    · simp only [afterMark, hm, Bool.false_eq_true, if_false] at hz ⊢
-      by_cases hd : c = '('
-      · subst hd
-        simp only [Bool.not_eq_false'] at hz ⊢
-        have : ')' ∈ r := List.contains_iff_mem.mp hz
-        simp [this]
-      · split
-        · rename_i heq; injection heq with e _; exact absurd e hd
-        · rfl
 
 /-- a comment is a `metadata` (reading R5): `;` and any text without CR / LF -/
 theorem metadata_of_text {s r : List Char} (hs : NoNL s) : metadata (';' :: (s ++ r)) r :=
@@ -421,17 +362,6 @@ theorem oneLine_note : OneLine
     simp only [Bool.not_eq_true', Bool.or_eq_false_iff] at hc
     simp [isNoNewLine, hc.1.1, hc.1.2]
 
-theorem stripSp_idem (x : List Char) : stripSp (stripSp x) = stripSp x := by
-  induction x with
-  | nil => rfl
-  | cons c t ih =>
-    cases hc : isSp c with
-    | false => simp [stripSp, List.dropWhile, hc]
-    | true => simpa [stripSp, List.dropWhile, hc] using ih
-
-theorem noteHazard_strip (x : List Char) : noteHazard (stripSp x) = noteHazard x := by
-  rw [noteHazard_eq, noteHazard_eq, stripSp_idem]
-
 /-- the `Transaction` value built at the end of `transaction::transaction` -/
 def mkTxn (d : Date) (ed : Option Date) (cs : ClearState) (code payee : Option (List Char)) (posts : List Posting)
     (md : List Metadata) : Transaction :=
@@ -494,14 +424,11 @@ theorem transaction_accept {i r : List Char} (h : transaction 𝔸 i r) (hr : Di
   -- from the position after the dates
   have htailacc : ∀ d ed, ∃ t, txnTail d ed d1 = .ok t r := by
     intro d ed
-    rcases hnote with ⟨n0, hsp, hnote, ntext, hn0, hok⟩ | rfl
+    rcases hnote with ⟨n0, hsp, hnote⟩ | rfl
     · -- a note
       obtain ⟨sps, rfl, hspsne, hsps⟩ := plus_sp hsp
-      obtain ⟨ntext', hn0', hnt⟩ := oneLine_note _ _ hnote
-      have : ntext = ntext' := List.append_cancel_right (hn0.symm.trans hn0')
-      subst this
+      obtain ⟨ntext, hn0, hnt⟩ := oneLine_note _ _ hnote
       subst hn0
-      have hok' : noteHazard ntext = false := by simpa [Dialect.accepted] using hok
       obtain ⟨b, sps', rfl⟩ : ∃ b t, sps = b :: t := by
         cases sps with
         | nil => exact absurd rfl hspsne
@@ -534,11 +461,7 @@ theorem transaction_accept {i r : List Char} (h : transaction 𝔸 i r) (hr : Di
         | cons c t =>
           have : isSp c = false := dropWhile_head_false (q := isSp) hl
           simpa [isSp_eq_isSpace] using this
-      have hLhz : noteHazard L = false := by
-        show noteHazard (stripSp (ntext ++ L0)) = false
-        rw [noteHazard_strip]
-        exact noteHazard_append hok' hL0head
-      obtain ⟨cs, code, payee, M, hM, hMhead, hk⟩ := headerTail_accept hLnn hTend hLstop hLhz
+      obtain ⟨cs, code, payee, M, hM, hMhead, hk⟩ := headerTail_accept hLnn hTend
       obtain ⟨ms, hms⟩ := hblock M hM hMhead
       refine ⟨mkTxn d ed cs code payee posts ms, ?_⟩
       have := hk (fun cs code payee => Parse.blockMetadata >>- fun md => repeat0 postingElem >>- fun posts =>
@@ -555,11 +478,7 @@ theorem transaction_accept {i r : List Char} (h : transaction 𝔸 i r) (hr : Di
         · exact hasPeek_ok (a := ()) (r := h3) (alt2_ok (lineEndingOrEof_newLine hT))
         · exact hasPeek_ok (a := ()) (r := t ++ T) (by
             simp [alt2, lineEndingOrEof_bt (c := ';') (by decide)])
-      have hLhz : noteHazard L0 = false := by
-        rcases hL0head with rfl | ⟨t, rfl⟩
-        · rfl
-        · simp [noteHazard_eq, stripSp_of_head, afterMark, isSp]
-      obtain ⟨cs, code, payee, M, hM, hMhead, hk⟩ := headerTail_accept hL0 hTend (by rw [← hd2]; exact hd2stop.1) hLhz
+      obtain ⟨cs, code, payee, M, hM, hMhead, hk⟩ := headerTail_accept hL0 hTend
       obtain ⟨ms, hms⟩ := hblock M hM hMhead
       refine ⟨mkTxn d ed cs code payee posts ms, ?_⟩
       have := hk (fun cs code payee => Parse.blockMetadata >>- fun md => repeat0 postingElem >>- fun posts =>
